@@ -26,6 +26,23 @@ pub struct Case {
     pub ext: Vec<Ext>,
     /// build scripts through from_script_bits (keeps zero-length PUSHDATA, `fail: Some([])` …) instead of parsing bytes
     pub via_bits: bool,
+    /// one more script of `depth` nested conditionals: as an extra output script (place 0), or as the extended locking script of input 0 (place 1)
+    #[serde(default)]
+    pub deep: Option<Deep>,
+}
+
+#[derive(Clone, Debug, Serialize, Deserialize)]
+pub struct Deep {
+    pub depth: u16,
+    pub place: u8,
+    pub via_else: bool,
+}
+
+/// nests deeper than this are where the known finding `deep-conditionals-exceed-decoder-recursion-limit` begins (JSON; CBOR from about 120)
+pub const DEEP_KNOWN_FROM: u16 = 59;
+
+fn recursion_refusal(f: &Failure) -> bool {
+    f.check.ends_with("decodes") && (f.library.contains("recursion limit") || f.library.contains("RecursionLimitExceeded"))
 }
 
 fn same_tx(a: &Transaction, b: &Transaction, what: &str) -> Result<(), Failure> {
@@ -84,14 +101,54 @@ impl Property for C18 {
 
     fn strategy(_tier: Tier) -> BoxedStrategy<Case> {
         let ext = (prop::option::weighted(0.6, gen::u64_edge()), prop::option::weighted(0.5, gs::elements(false, false, 2, false))).prop_map(|(satoshis, locking)| Ext { satoshis, locking });
-        (gt::gtx(false, false, false), prop::collection::vec(ext, 1..4), any::<bool>()).prop_map(|(tx, ext, via_bits)| Case { tx, ext, via_bits }).boxed()
+        let deep = (prop_oneof![3 => 1u16..DEEP_KNOWN_FROM, 2 => DEEP_KNOWN_FROM..140, 1 => 140u16..500], any::<u8>(), any::<bool>()).prop_map(|(depth, place, via_else)| Deep { depth, place, via_else });
+        (gt::gtx(false, false, false), prop::collection::vec(ext, 1..4), any::<bool>(), prop::option::weighted(0.1, deep)).prop_map(|(tx, ext, via_bits, deep)| Case { tx, ext, via_bits, deep }).boxed()
+    }
+
+    fn known(c: &Case, f: &Failure) -> Option<&'static str> {
+        // a script of more than about 60 (JSON) / 125 (CBOR) nested conditionals cannot be read back: the decoders' recursion limits
+        let d = c.deep.as_ref()?;
+        if d.depth < DEEP_KNOWN_FROM || !recursion_refusal(f) {
+            return None;
+        }
+        // delta attribution: the same case with a nest below the limits passes every check
+        let shallow = Case { deep: Some(Deep { depth: 40, place: d.place, via_else: d.via_else }), ..c.clone() };
+        if Self::check(&shallow).is_ok() {
+            Some("deep-conditionals-exceed-decoder-recursion-limit")
+        } else {
+            None
+        }
     }
 
     fn check(c: &Case) -> CheckResult {
         let mut o = Outcome::new();
-        let r = c.tx.to_ref();
+        let mut r = c.tx.to_ref();
+        let nest_bytes = c.deep.as_ref().map(|d| gs::to_bytes(&if d.via_else { gs::nest_via_else(d.depth as u32, 99) } else { gs::nest(d.depth as u32, d.depth % 2 == 0, 100) }));
+        if let (Some(d), Some(nb)) = (&c.deep, &nest_bytes) {
+            if d.place % 2 == 0 {
+                r.outs.push(wire::ROut { value: 7, script: nb.clone() });
+            }
+        }
         let mut tx = parse_fresh(&r)?;
         let mut any_ext = false;
+        // a decoder refusing a deep nest for its recursion limit is remembered and reported after the other forms were checked
+        let mut deferred: Option<Failure> = None;
+        macro_rules! decoded {
+            ($res:expr) => {
+                match $res {
+                    Ok(v) => Some(v),
+                    Err(f) => {
+                        let f: Failure = f;
+                        if c.deep.is_some() && recursion_refusal(&f) {
+                            deferred.get_or_insert(f);
+                            None
+                        } else {
+                            return Err(f);
+                        }
+                    }
+                }
+            };
+        }
         for i in 0..r.ins.len() {
             let e = &c.ext[i % c.ext.len()];
             let mut txin = tx.get_input(i).unwrap();
@@ -108,6 +165,12 @@ impl Property for C18 {
                 let s = if c.via_bits { script_from_els(l) } else { Script::from_bytes(&gs::to_bytes(l)).map_err(|e| failure("locking_script_accepted", e.to_string(), "Ok"))? };
                 txin.set_locking_script(&s);
                 any_ext = true;
+            }
+            if let (0, Some(d), Some(nb)) = (i, &c.deep, &nest_bytes) {
+                if d.place % 2 == 1 {
+                    txin.set_locking_script(&Script::from_bytes(nb).map_err(|e| failure("locking_script_accepted", e.to_string(), "Ok"))?);
+                    any_ext = true;
+                }
             }
             tx.set_input(i, &txin);
         }
@@ -128,46 +191,56 @@ impl Property for C18 {
 
         // JSON text
         let json = lib_call("to_json_string", || tx.to_json_string())?.map_err(|e| failure("to_json_string", e.to_string(), "Ok"))?;
-        let back = lib_call("from_json_string", || Transaction::from_json_string(&json))?.map_err(|e| failure("json_decodes", format!("Err({}) for {}", e, clip(&json, 500)), "Ok"))?;
-        same_tx(&tx, &back, "json")?;
+        if let Some(back) = decoded!(lib_call("from_json_string", || Transaction::from_json_string(&json))?.map_err(|e| failure("json_decodes", format!("Err({}) for {}", e, clip(&json, 500)), "Ok"))) {
+            same_tx(&tx, &back, "json")?;
+        }
         // JSON value
         let val = lib_call("to_json", || tx.to_json())?.map_err(|e| failure("to_json", e.to_string(), "Ok"))?;
-        let back2: Transaction = lib_call("from_value", || serde_json::from_value(val.clone()))?.map_err(|e| failure("json_value_decodes", format!("Err({})", e), "Ok"))?;
-        same_tx(&tx, &back2, "json_value")?;
+        if let Some(back2) = decoded!(lib_call("from_value", || serde_json::from_value::<Transaction>(val.clone()))?.map_err(|e| failure("json_value_decodes", format!("Err({})", e), "Ok"))) {
+            same_tx(&tx, &back2, "json_value")?;
+        }
         // CBOR bytes / hex
         let cbor = lib_call("to_compact_bytes", || tx.to_compact_bytes())?.map_err(|e| failure("to_compact_bytes", e.to_string(), "Ok"))?;
-        let back3 = lib_call("from_compact_bytes", || Transaction::from_compact_bytes(&cbor))?.map_err(|e| failure("cbor_decodes", format!("Err({}) for {}", e, short_hex(&cbor)), "Ok"))?;
-        same_tx(&tx, &back3, "cbor")?;
+        if let Some(back3) = decoded!(lib_call("from_compact_bytes", || Transaction::from_compact_bytes(&cbor))?.map_err(|e| failure("cbor_decodes", format!("Err({}) for {}", e, short_hex(&cbor)), "Ok"))) {
+            same_tx(&tx, &back3, "cbor")?;
+        }
         let cbor_hex = lib_call("to_compact_hex", || tx.to_compact_hex())?.map_err(|e| failure("to_compact_hex", e.to_string(), "Ok"))?;
         ensure_eq!(cbor_hex, hex::encode(&cbor), "cbor_hex_is_hex_of_bytes");
-        let back4 = lib_call("from_compact_hex", || Transaction::from_compact_hex(&cbor_hex))?.map_err(|e| failure("cbor_hex_decodes", format!("Err({})", e), "Ok"))?;
-        same_tx(&tx, &back4, "cbor_hex")?;
+        if let Some(back4) = decoded!(lib_call("from_compact_hex", || Transaction::from_compact_hex(&cbor_hex))?.map_err(|e| failure("cbor_hex_decodes", format!("Err({})", e), "Ok"))) {
+            same_tx(&tx, &back4, "cbor_hex")?;
+        }
         // single inputs
         for i in 0..tx.get_ninputs().min(4) {
             let x = tx.get_input(i).unwrap();
             let b = lib_call("TxIn::to_compact_bytes", || x.to_compact_bytes())?.map_err(|e| failure("txin_to_compact_bytes", e.to_string(), "Ok"))?;
-            let y = lib_call("TxIn::from_compact_bytes", || TxIn::from_compact_bytes(&b))?.map_err(|e| failure("txin_cbor_decodes", format!("Err({})", e), "Ok"))?;
-            same_txin(&x, &y, "txin_cbor")?;
+            if let Some(y) = decoded!(lib_call("TxIn::from_compact_bytes", || TxIn::from_compact_bytes(&b))?.map_err(|e| failure("txin_cbor_decodes", format!("Err({})", e), "Ok"))) {
+                same_txin(&x, &y, "txin_cbor")?;
+            }
             let h = lib_call("TxIn::to_compact_hex", || x.to_compact_hex())?.map_err(|e| failure("txin_to_compact_hex", e.to_string(), "Ok"))?;
-            let y2 = lib_call("TxIn::from_compact_hex", || TxIn::from_compact_hex(&h))?.map_err(|e| failure("txin_cbor_hex_decodes", format!("Err({})", e), "Ok"))?;
-            same_txin(&x, &y2, "txin_cbor_hex")?;
+            if let Some(y2) = decoded!(lib_call("TxIn::from_compact_hex", || TxIn::from_compact_hex(&h))?.map_err(|e| failure("txin_cbor_hex_decodes", format!("Err({})", e), "Ok"))) {
+                same_txin(&x, &y2, "txin_cbor_hex")?;
+            }
             let v = lib_call("TxIn::to_json", || x.to_json())?.map_err(|e| failure("txin_to_json", e.to_string(), "Ok"))?;
-            let y3: TxIn = lib_call("TxIn from_value", || serde_json::from_value(v.clone()))?.map_err(|e| failure("txin_json_decodes", format!("Err({})", e), "Ok"))?;
-            same_txin(&x, &y3, "txin_json")?;
+            if let Some(y3) = decoded!(lib_call("TxIn from_value", || serde_json::from_value::<TxIn>(v.clone()))?.map_err(|e| failure("txin_json_decodes", format!("Err({})", e), "Ok"))) {
+                same_txin(&x, &y3, "txin_json")?;
+            }
             let s = lib_call("TxIn::to_json_string", || x.to_json_string())?.map_err(|e| failure("txin_to_json_string", e.to_string(), "Ok"))?;
-            let y4: TxIn = lib_call("TxIn from_str", || serde_json::from_str(&s))?.map_err(|e| failure("txin_json_string_decodes", format!("Err({})", e), "Ok"))?;
-            same_txin(&x, &y4, "txin_json_string")?;
+            if let Some(y4) = decoded!(lib_call("TxIn from_str", || serde_json::from_str::<TxIn>(&s))?.map_err(|e| failure("txin_json_string_decodes", format!("Err({})", e), "Ok"))) {
+                same_txin(&x, &y4, "txin_json_string")?;
+            }
         }
         // single outputs through serde
         for i in 0..tx.get_noutputs().min(4) {
             let x = tx.get_output(i).unwrap();
             let v = lib_call("TxOut::to_json", || x.to_json())?.map_err(|e| failure("txout_to_json", e.to_string(), "Ok"))?;
-            let y: bsv::TxOut = lib_call("TxOut from_value", || serde_json::from_value(v.clone()))?.map_err(|e| failure("txout_json_decodes", format!("Err({})", e), "Ok"))?;
-            ensure!(x == y, "txout_json_equal", format!("{:?}", y), format!("{:?}", x));
+            if let Some(y) = decoded!(lib_call("TxOut from_value", || serde_json::from_value::<bsv::TxOut>(v.clone()))?.map_err(|e| failure("txout_json_decodes", format!("Err({})", e), "Ok"))) {
+                ensure!(x == y, "txout_json_equal", "differs", "equal");
+            }
             let s = lib_call("TxOut::to_json_string", || x.to_json_string())?.map_err(|e| failure("txout_to_json_string", e.to_string(), "Ok"))?;
-            let y2: bsv::TxOut = lib_call("TxOut from_str", || serde_json::from_str(&s))?.map_err(|e| failure("txout_json_string_decodes", format!("Err({})", e), "Ok"))?;
-            ensure!(x == y2, "txout_json_string_equal", "differs", "equal");
-            ensure_eq!(y2.get_satoshis(), x.get_satoshis(), "txout_json_value");
+            if let Some(y2) = decoded!(lib_call("TxOut from_str", || serde_json::from_str::<bsv::TxOut>(&s))?.map_err(|e| failure("txout_json_string_decodes", format!("Err({})", e), "Ok"))) {
+                ensure!(x == y2, "txout_json_string_equal", "differs", "equal");
+                ensure_eq!(y2.get_satoshis(), x.get_satoshis(), "txout_json_value");
+            }
         }
         o.nt_if(any_ext, "extended-fields");
         o.nt_if(r.ins.iter().any(|i| i.is_null_outpoint()), "coinbase-input");
@@ -175,6 +248,13 @@ impl Property for C18 {
         let has_structure = |els: &[El]| gs::has_pushdata(els) || gs::has_if(els);
         o.nt_if(c.tx.ins.iter().any(|i| matches!(&i.script, gt::GScript::Els(e) if has_structure(e))) || c.tx.outs.iter().any(|x| has_structure(&x.script)) || c.ext.iter().any(|e| e.locking.as_ref().map(|l| has_structure(l)).unwrap_or(false)), "pushdata-or-conditional");
         o.label_if(c.via_bits, "via-bits");
+        if let Some(d) = &c.deep {
+            o.nt("deep-conditionals");
+            o.label_if(d.depth < DEEP_KNOWN_FROM, "deep-conditionals-below-the-decoder-limits");
+        }
+        if let Some(f) = deferred {
+            return Err(f);
+        }
         Ok(o)
     }
 }
